@@ -100,6 +100,11 @@ def worker(args):
             before = None
             if when in ("transcribed", "solved"):
                 ocp.sample(ocp.t, grid="control")
+                if sum(map(ord, str(case.get("id", "")))) % 2 == 0 and (late["values"] or late["calls"]):
+                    # a checkpoint to the SAME file before the late updates (an MPC loop saving every iteration): the later save
+                    # must write what the OCP is then
+                    ocp.save(path)
+                    ocp.sample(ocp.t, grid="control")
                 # updates made on the transcribed OCP must be part of what is saved
                 for slot, v in late["values"]:
                     ocp.set_value(B.S["p"][slot], float(Fr(v)))
